@@ -1328,11 +1328,21 @@ var impGroups = []impGroup{
 }
 
 func genImp(repo string, outDir string, hashes map[string]string) {
-	p := load(repo, "ecs", nil)
-	for _, g := range impGroups {
+	genImpBuild(repo, outDir, hashes, nil, impGroups, "Gen.Mask256")
+	// the tiny build (64 mask bits): the lock mask and its bit pool are the only translated code
+	// whose shape depends on MaskTotalBits
+	tiny := []impGroup{impGroups[1]}
+	tiny[0].file = "GoLocks64.v"
+	tiny[0].note += " (build tag tiny)"
+	genImpBuild(repo, outDir, map[string]string{}, []string{"tiny"}, tiny, "Gen.Mask64")
+}
+
+func genImpBuild(repo string, outDir string, hashes map[string]string, tags []string, groups []impGroup, maskModule string) {
+	p := load(repo, "ecs", tags)
+	for _, g := range groups {
 		t := &itr{p: p, isRec: map[string]bool{}, fns: map[string]*ifn{}, tparamW: 32}
 		var b strings.Builder
-		b.WriteString(impPreamble)
+		b.WriteString(strings.Replace(impPreamble, "Gen.Mask256", maskModule, 1))
 		fmt.Fprintf(&b, "(* %s *)\n\n", g.note)
 		for _, r := range g.records {
 			t.isRec[r] = true
